@@ -107,14 +107,29 @@ def check_packet(ctx, P, ptype, nsp, pid, data, rng, cls):
                           % (R.NAMES[ptype], str(e)), w)
             return
         raise
+    import copy
+    before = copy.deepcopy(data)
     try:
         enc = p.encode()
+        # encoding is an observation: the same packet encodes to the same
+        # frames again, and the caller's payload object is left as it was
+        # (the same object may be emitted again, or to several clients)
+        enc2 = p.encode()
     except Exception as e:
         # every payload the generators build is JSON-compatible apart from
         # its byte strings, so a well-formed packet always has a frame
         ctx.violation(None, 'encode() raised %r for a well-formed %s packet'
                       % (e, R.NAMES[ptype]), w)
         return
+    if enc2 != enc:
+        ctx.violation(None, 'encoding the same packet twice gives different '
+                      'frames: %r then %r' % (enc, enc2), w)
+        return
+    if not R.deep_eq(data, before):
+        ctx.violation(None, 'encode() modified the payload object it was '
+                      'given: %r' % (data,), w)
+        return
+    ctx.count('encode_purity_checks')
     if isinstance(enc, list):
         text, atts = enc[0], enc[1:]
     else:
